@@ -68,6 +68,10 @@ enum SrcKind {
     /// Turtle statements with object and predicate lists: several triples per parser step
     TurtleMulti,
     XmlParser,
+    /// the quad-side Rio adapters (StrictRioQuadSource, GeneralizedRioSource), through to_triples()
+    NqParser,
+    GnqParser,
+    TrigParser,
     /// documented as buffering: parses the whole document before yielding anything
     JsonLdParser,
     VecGraph,
@@ -1040,7 +1044,7 @@ fn execute_inner(setup: &Setup, sf: SrcFault, kf: SinkFault) -> Outcome {
                     with_chain(src, &ops, drive);
                 }
             }
-            SrcKind::NtParser | SrcKind::TurtleParser | SrcKind::TurtleMulti | SrcKind::XmlParser | SrcKind::JsonLdParser => {
+            SrcKind::NtParser | SrcKind::TurtleParser | SrcKind::TurtleMulti | SrcKind::XmlParser | SrcKind::JsonLdParser | SrcKind::NqParser | SrcKind::GnqParser | SrcKind::TrigParser => {
                 let broken = match sf {
                     SrcFault::Syntax(k) => Some(k),
                     _ => None,
@@ -1064,6 +1068,12 @@ fn execute_inner(setup: &Setup, sf: SrcFault, kf: SinkFault) -> Outcome {
                     with_chain_iter(sophia_turtle::parser::turtle::parse_bufread(rd), &ops, drive);
                 } else if setup.src == SrcKind::XmlParser {
                     with_chain_short(sophia_xml::parser::parse_bufread(rd), &ops, drive);
+                } else if setup.src == SrcKind::NqParser {
+                    with_chain_short(sophia_turtle::parser::nq::parse_bufread(rd).to_triples(), &ops, drive);
+                } else if setup.src == SrcKind::GnqParser {
+                    with_chain_short(sophia_turtle::parser::gnq::parse_bufread(rd).to_triples(), &ops, drive);
+                } else if setup.src == SrcKind::TrigParser {
+                    with_chain_short(sophia_turtle::parser::trig::parse_bufread(rd).to_triples(), &ops, drive);
                 } else if setup.src == SrcKind::JsonLdParser {
                     let p = sophia_jsonld::JsonLdParser::new();
                     let qs = sophia_api::parser::QuadParser::parse(&p, rd);
@@ -1667,7 +1677,10 @@ fn run_c15(ctx: &mut Ctx) -> Verdict {
         SrcKind::VecGraph,
         SrcKind::FastGraph,
         SrcKind::JsonLdParser,
-    ][ctx.tape.below(12)];
+        SrcKind::NqParser,
+        SrcKind::GnqParser,
+        SrcKind::TrigParser,
+    ][ctx.tape.below(15)];
     let max_depth = if matches!(src, SrcKind::Iter | SrcKind::Batch) { 3 } else { 1 };
     let depth = ctx.tape.below(max_depth + 1);
     let mut consumer = CONSUMERS[ctx.tape.below(CONSUMERS.len())];
@@ -1789,6 +1802,9 @@ fn run_c15(ctx: &mut Ctx) -> Verdict {
         SrcKind::TurtleMulti => "source_turtle_parser_multi_object_statements",
         SrcKind::XmlParser => "source_rdfxml_parser",
         SrcKind::JsonLdParser => "source_jsonld_parser_(buffering)",
+        SrcKind::NqParser => "source_nq_parser",
+        SrcKind::GnqParser => "source_gnq_parser",
+        SrcKind::TrigParser => "source_trig_parser",
         SrcKind::VecGraph => "source_vec_graph",
         SrcKind::FastGraph => "source_fast_graph",
     });
@@ -1847,7 +1863,7 @@ fn run_c15(ctx: &mut Ctx) -> Verdict {
                 src_faults.push(SrcFault::IterErr(k));
             }
         }
-        SrcKind::NtParser | SrcKind::TurtleParser | SrcKind::TurtleMulti | SrcKind::XmlParser | SrcKind::JsonLdParser => {
+        SrcKind::NtParser | SrcKind::TurtleParser | SrcKind::TurtleMulti | SrcKind::XmlParser | SrcKind::JsonLdParser | SrcKind::NqParser | SrcKind::GnqParser | SrcKind::TrigParser => {
             for k in 0..n {
                 src_faults.push(SrcFault::Syntax(k));
             }
@@ -1963,10 +1979,32 @@ fn run_c15(ctx: &mut Ctx) -> Verdict {
 }
 
 fn warmup() {
-    let mut ctx = Ctx::new(simcore::Tape::record(1), false);
-    for _ in 0..40 {
-        let _ = run_c15(&mut ctx);
+    // on THIS thread (not on a sub-thread): every parser and serializer once, so that the regex
+    // caches of this thread's pool stack exist (see DESIGN.md §11.2)
+    let items = vec![
+        [MTerm::iri("http://ex.org/s0"), MTerm::iri("http://ex.org/p"), MTerm::Lang("w".into(), "en".into())],
+        [MTerm::iri("http://ex.org/s1"), MTerm::iri("http://ex.org/q"), MTerm::lit("1", "http://www.w3.org/2001/XMLSchema#integer")],
+        [MTerm::iri("http://ex.org/s2"), MTerm::iri("http://ex.org/q"), MTerm::iri("http://ex.org/o")],
+    ];
+    for src in [SrcKind::JsonLdParser, SrcKind::NtParser, SrcKind::TurtleParser, SrcKind::XmlParser, SrcKind::NqParser, SrcKind::GnqParser, SrcKind::TrigParser, SrcKind::Iter] {
+        for consumer in [Consumer::TryForEach, Consumer::SerNt, Consumer::SerTtl, Consumer::SerTtlPretty, Consumer::SerXml, Consumer::SerNq, Consumer::CollectFast, Consumer::InsertLightTiny(2)] {
+            let setup = Setup {
+                hs: 0,
+                batch: vec![],
+                src,
+                items: items.clone(),
+                ops: vec![(OpKind::Map, !0, 1)],
+                qops: vec![],
+                consumer,
+                pre: vec![],
+                noise: Noise::perfect(),
+            };
+            let _ = execute_inner(&setup, SrcFault::None, SinkFault::None);
+        }
     }
+    // NB: no sub-threads here. The warm-up threads must get consecutive regex-pool thread ids so
+    // that together they populate all 8 pool stacks; a warm-up that spawns threads itself would
+    // leave gaps (and, unluckily, could land every warm-up thread on the same stack).
 }
 
 fn main() {
